@@ -152,12 +152,34 @@ def r2_end_table(m, ends):
     return r
 
 
+def r4_opener_index(m):
+    r = RuleResult("C08.R4", "the block engine addresses the opening statement as content[start_idx]: index 0 may be a preceding comment")
+    r.floor = 2
+    from rules import common_block
+    ctx = common_block.get_ctx(m)
+    eng = ctx.engine
+    pre = any((A.dotted(c.func) or "").endswith("add_comments_includes_directives") for c in A.calls(eng.node))
+    n_ok = 0
+    for n in A.body_nodes(eng.node):
+        if isinstance(n, ast.Subscript) and A.text(n.value) == "content" and isinstance(n.ctx, ast.Load):
+            r.instances += 1
+            idx = A.text(n.slice)
+            bad = pre and isinstance(n.slice, ast.Constant) and n.slice.value == 0
+            r.ob(not bad, "content[%s]" % idx)
+            if bad:
+                r.fail("BlockBase.match|content[0]", "BlockBase.match reads content[0] as a statement of the construct, but comments, includes and "
+                       "directives collected before the opening statement come first in `content`: with a preceding comment the name/label "
+                       "check is applied to the comment and silently skipped", m.loc(eng, n))
+    return r
+
+
 def run(m, tier):
     blocks = tables.engine_instances(m, "BlockBase")
     ends = tables.engine_instances(m, "EndStmtBase")
     results = [r1_block_table(m, blocks), r2_end_table(m, ends)]
     from rules import common_block
     results += common_block.c08_engine_rules(m, blocks, ends)
+    results.append(r4_opener_index(m))
     expl = ("Decides the structural clauses of C08: the table of block constructs extracted from every "
             "BlockBase.match call site agrees with the Fortran 2003/2008 rules (opening/END pair, name and label "
             "comparison flags), every END statement class names its keyword and refuses a bare END where the standard "
